@@ -18,6 +18,10 @@ def run_case(c):
             spec["grid_obj"] = fdtdx.RectilinearGrid.uniform(shape=tuple(shape), spacing=sp)
         elif g == "quasi":
             spec["grid_obj"] = fdtdx.QuasiUniformGrid(dx=sp, dy=sp, dz=sp)
+        elif g == "uniform_shifted":     # same mesh, the physical coordinate of the domain centre moved away from the origin
+            spec["grid_obj"] = fdtdx.UniformGrid(spacing=sp, center=(3.0 * sp, -7.5 * sp, 1.25e-6))
+        elif g == "quasi_shifted":
+            spec["grid_obj"] = fdtdx.QuasiUniformGrid(dx=sp, dy=sp, dz=sp, center=(-2.0 * sp, 0.5 * sp, 4.0e-7))
     oc, arrays, cfg, _ = build(spec)
     if c.get("shard"):
         pass
